@@ -130,9 +130,11 @@ pub fn run(ctx: &Ctx) -> i32 {
                     match catch(|| Envelope::sskr_join(&subset)) {
                         Err(p) => acc2.viol(format!("C11|mixed|panic|{}", p.loc), p.msg.clone(), cid(), json!({"policy": groups, "same_identifier": same_id})),
                         Ok(Ok(r)) => { let o = bind::observe(&r); let want = if first_is_2 { &w2 } else { &w1 }; if &o != want { acc2.viol("C11|mixed|returns-other", "join of shares mixed from two splits returned something else than the first envelope's original subject", cid(), json!({"policy": groups, "same_identifier": same_id})) } else { acc2.nontrivial(&("mix", mi, same_id, m1, m2, first_from_2)) } }
-                        // the envelope being opened is the first one: when the set contains a quorum of ITS split, shares of a foreign split (another
-                        // identifier) next to, before or between them do not take the quorum away
-                        Ok(Err(er)) => { acc2.inc("mixed_joins_refused"); if !same_id && first_split_has_quorum { acc2.viol("C11|mixed|quorum-of-the-first-envelope's-split-present|refused", format!("a quorum of the first envelope's split is present, next to shares of another split with a different identifier, and the join fails: {er}"), cid(), json!({"policy": groups, "interleaved": interleaved})) } }
+                        // A set that mixes two splits is not "a subset of the share envelopes" of one split: the statement demands "never another
+                        // envelope, never a panic" and nothing more. A refusal is therefore never a violation - not even when the first envelope's
+                        // split has a quorum in the set (counted, so that the evidence shows how often the current code does join there). A
+                        // property-preserving change that refuses envelopes with differing subjects (benign/P06, change 1) must stay silent.
+                        Ok(Err(_)) => { acc2.inc("mixed_joins_refused"); if !same_id && first_split_has_quorum { acc2.inc("mixed_joins_refused_although_the_first_envelopes_split_has_a_quorum") } }
                     }
                 }
             } }
